@@ -82,10 +82,10 @@ def common_inv(c, st, attached=(0, 0)):
     c.assume(fp < E18); c.assume(fs < E18); c.assume(fb < E18); c.assume(fp + fs + fb < E18)
 
 
-def swap_body(kinds, oi, belief=False, to=True, toggles=(True, True, True), pair_type='cp', amp=None, sender_sym=False):
+def swap_body(kinds, oi, belief=False, to=True, toggles=(True, True, True), pair_type='cp', amp=None, sender_sym=False, decimals=(6, 6)):
     def body(it):
         c = it.ctx
-        st = setup_pair(it, kinds, pair_type, toggles, amp=amp)
+        st = setup_pair(it, kinds, pair_type, toggles, amp=amp(c) if callable(amp) else amp, decimals=decimals)
         off = c.sym('offer', 128)
         common_inv(c, st, attached=(off, 0) if oi == 0 else (0, off))
         ms = SOME(DEC(c.sym('max_spread', 128)))
@@ -104,10 +104,10 @@ def swap_body(kinds, oi, belief=False, to=True, toggles=(True, True, True), pair
     return body
 
 
-def provide_body(kinds, first=False, receiver=True, toggles=(True, True, True), slippage=False, pair_type='cp', amp=None, swap_order=True):
+def provide_body(kinds, first=False, receiver=True, toggles=(True, True, True), slippage=False, pair_type='cp', amp=None, swap_order=True, decimals=(6, 6)):
     def body(it):
         c = it.ctx
-        st = setup_pair(it, kinds, pair_type, toggles, amp=amp)
+        st = setup_pair(it, kinds, pair_type, toggles, amp=amp(c) if callable(amp) else amp, decimals=decimals)
         d = [c.sym('d0', 128), c.sym('d1', 128)]
         att = [d[i] if kinds[i] == 'native' else 0 for i in (0, 1)]
         common_inv(c, st, attached=att)
